@@ -9,6 +9,7 @@ CONSTANTS
   FixWorkerErr = TRUE
   AllowStop = TRUE
   AllowFault = FALSE
+  AliveCheck = TRUE
 INVARIANT ProtocolOK
 INVARIANT ClosedAtEnd
 INVARIANT NoProblemLost
